@@ -12,26 +12,28 @@ Lemma phase1_err s : has_err s = true ->
                match t with Some _ => true | None => false end)).
 Proof. intros H. unfold phase1. rewrite H, orb_true_r. reflexivity. Qed.
 
-Lemma scan_err_state fuel s r e : serr s = Some e -> length (pend s) < maxtok ->
+Lemma scan_err_state fuel s r e : serr s = Some e -> G s ->
+  (length (pend s) < maxtok \/ snd (segT (pend s)) = SEnd) ->
   match scan (S fuel) s r with
   | SR true s' r' => r' = r /\ exists t ts z, tok s' = Some t /\ segT (pend s) = (t :: ts, z) /\
-        segT (pend s') = (ts, z) /\ serr s' = Some e /\ length (pend s') + 5 <= length (pend s) /\ (G s -> G s')
+        segT (pend s') = (ts, z) /\ serr s' = Some e /\ length (pend s') + 5 <= length (pend s) /\ G s'
   | SR false s' r' => segT (pend s) = ([], SEnd) /\ sc_err s' = e
   | SFuel => False
   end.
 Proof.
-  intros He Hl. assert (Hh : has_err s = true) by (unfold has_err; rewrite He; reflexivity).
+  intros He HG Hl. assert (Hh : has_err s = true) by (unfold has_err; rewrite He; reflexivity).
   cbn [scan]. rewrite (phase1_err _ Hh), Hh.
   destruct (scan_messages (pend s) true) as [a [t|]] eqn:E.
   - split; [reflexivity|]. destruct (scan_tok_bounds _ _ _ _ E) as [[Ha1 Ha2] Ht].
-    rewrite (segT_unfold (pend s)), E.
+    rewrite (segT_unfold (pend s)), E. pose proof (G_pend_le _ HG) as Hle.
     destruct (maxtok <? length t) eqn:E2; [apply Nat.ltb_lt in E2; lia|].
     cbn [pend tok serr]. destruct (segT (skipn a (pend s))) as [ts z] eqn:E3.
     exists t, ts, z. split; [reflexivity|]. split; [reflexivity|]. split; [reflexivity|]. split; [assumption|]. split.
     + rewrite skipn_length. lia.
-    + intros [G1 G2]. unfold G, sc_end in *. cbn [buflen start pend]. rewrite skipn_length. split; lia.
+    + destruct HG as [G1 G2]. unfold G, sc_end in *. cbn [buflen start pend]. rewrite skipn_length. split; lia.
   - cbn [sc_err serr]. rewrite He. split; [|reflexivity].
-    rewrite segT_unfold, E. f_equal.
+    rewrite segT_unfold, E in *. f_equal.
+    destruct Hl as [Hl|Hl]; [|exact Hl].
     destruct (maxtok <=? length (skipn a (pend s))) eqn:E2; [|reflexivity].
     apply Nat.leb_le in E2. rewrite skipn_length in E2. lia.
 Qed.
@@ -45,21 +47,30 @@ Lemma phase1_noerr_cons s : has_err s = false -> pend s <> [] ->
                match t with Some _ => true | None => false end)).
 Proof. intros H Hp. unfold phase1. rewrite H. destruct (pend s); [congruence|]. reflexivity. Qed.
 
+Definition drain_ok (s : scanner) : Prop := length (pend s) < maxtok \/ snd (segT (pend s)) = SEnd.
+
 Definition scan_post (s : scanner) (r : reader) (res : scan_res) : Prop :=
   match res with
   | SFuel => False
   | SR true s' r' => exists t ts z, tok s' = Some t /\ segT (pend s ++ rest r) = (t :: ts, z) /\
-        segT (pend s' ++ rest r') = (ts, z) /\ G s' /\ final r' = final r /\ err_with_data r' = false /\
-        sched_pos (sched r') /\ mu r' <= mu r /\
+        segT (pend s' ++ rest r') = (ts, z) /\ G s' /\ final r' = final r /\ err_with_data r' = err_with_data r /\
+        sched_ok (sched r') /\ mu r' <= mu r /\
         length (pend s') + length (rest r') + 5 <= length (pend s) + length (rest r) /\
-        (serr s' = None \/ (serr s' = Some (final r) /\ rest r' = [] /\ length (pend s') < maxtok))
+        (serr s' = None \/ (serr s' = Some (final r) /\ rest r' = [] /\ drain_ok s'))
   | SR false s' r' => exists z, segT (pend s ++ rest r) = ([], z) /\ sc_err s' = tterm z (final r)
   end.
 
+(* the error convention "data together with the error" is covered when the reference segmentation of
+   what is left does not end in TooLong (otherwise the outcome at exactly 64 KiB pending differs) *)
+Definition conv_ok (s : scanner) (r : reader) : Prop :=
+  err_with_data r = false \/ snd (segT (pend s ++ rest r)) = SEnd.
+
+Definition scan_pre (s : scanner) (r : reader) (fuel : nat) : Prop :=
+  G s /\ serr s = None /\ sched_ok (sched r) /\ conv_ok s r /\ mu r + 2 <= fuel.
+
 (* the part of one loop iteration after phase 1 produced no token, in the no-error state *)
-Lemma after_phase1 f (IH : forall s r, G s -> serr s = None -> err_with_data r = false -> sched_pos (sched r) ->
-                          mu r + 2 <= f -> scan_post s r (scan f s r))
-  s1 r : G s1 -> serr s1 = None -> err_with_data r = false -> sched_pos (sched r) -> mu r + 2 <= S f ->
+Lemma after_phase1 f (IH : forall s r, scan_pre s r f -> scan_post s r (scan f s r))
+  s1 r : scan_pre s1 r (S f) ->
   (pend s1 = [] \/ scan_messages (pend s1) false = (0, None)) ->
   scan_post s1 r
     (match grow (shift s1) with
@@ -67,43 +78,63 @@ Lemma after_phase1 f (IH : forall s r, G s -> serr s = None -> err_with_data r =
      | Some s3 => let '(s4, r') := read_loop 100 s3 r in scan f s4 r'
      end).
 Proof.
-  intros HG He Hewd Hpos Hmu Hidem.
+  intros (HG & He & Hok & Hconv & Hmu) Hidem.
   destruct (shift_props s1 HG) as (HG2 & Hp2 & He2 & Hb2 & Hst2).
   destruct (grow (shift s1)) as [s3|] eqn:Eg.
   - destruct (grow_some _ _ HG2 Eg) as (HG3 & Hp3 & He3 & Hroom).
     destruct (read_loop 100 s3 r) as [s4 r'] eqn:Erl. cbv iota beta.
-    destruct (read_loop_pos _ _ _ _ _ HG3 Hroom Hewd Hpos Erl) as (Hb4 & Hs4 & Hf4 & Hewd4 & [Hcase|Hcase]).
+    assert (Hl0 : lead0 (sched r) <= 100) by (destruct (sched r); [cbn; lia|destruct Hok as [H _]; exact H]).
+    destruct (read_loop_gen 100 _ _ _ _ Hl0 HG3 Hroom Hok Erl) as (Hb4 & Hs4 & Hf4 & Hewd4 & Hok4 & Hsl4 & Hcase).
+    assert (Hse : serr s3 = None) by (rewrite He3, He2; exact He).
+    destruct Hcase as [Hcase|Hcase].
     + (* end of input *)
-      destruct Hcase as (Hrest & Hp4 & He4 & ->).
+      destruct Hcase as (Hrest & Hrest' & Hp4 & He4).
       assert (Hlt : length (pend s4) < maxtok).
       { rewrite Hp4. destruct HG3 as [G1 G2]. unfold sc_end, max_token in *. pose proof maxtok_eq. lia. }
-      rewrite He3, He2, He in He4. cbn [set_err] in He4.
+      rewrite Hse in He4. cbn [set_err] in He4.
+      assert (HG4 : G s4).
+      { destruct HG3 as [G1 G2]. unfold G, sc_end in *. rewrite Hb4, Hs4, Hp4. split; assumption. }
       destruct f as [|f']; [unfold mu in Hmu; lia|].
-      pose proof (scan_err_state f' s4 r (final r) He4 Hlt) as Hs.
+      pose proof (scan_err_state f' s4 r' (final r) He4 HG4 (or_introl Hlt)) as Hs.
       rewrite Hp4, Hp3, Hp2 in Hs.
-      destruct (scan (S f') s4 r) as [[|] s' r''|]; cbn [scan_post]; [| |exact Hs].
+      destruct (scan (S f') s4 r') as [[|] s' r''|]; cbn [scan_post]; [| |exact Hs].
       * destruct Hs as (-> & t & ts & z & Ht & Hseg & Hseg' & Hes & Hlen & HGG).
-        exists t, ts, z. rewrite Hrest, !app_nil_r. ssplit; try assumption; try reflexivity.
-        -- apply HGG. destruct HG3 as [G1 G2]. split.
-           ++ unfold sc_end in *. rewrite Hb4, Hs4, Hp4. exact G1.
-           ++ rewrite Hb4. exact G2.
+        exists t, ts, z. rewrite Hrest, Hrest', !app_nil_r. ssplit; try assumption; try reflexivity.
+        -- unfold mu. rewrite Hrest, Hrest'. cbn [length]. lia.
         -- cbn [length]. lia.
-        -- right. ssplit; try assumption; try reflexivity. rewrite Hp4, Hp3, Hp2 in Hlt. lia.
+        -- right. ssplit; try assumption; try reflexivity. left. rewrite Hp4, Hp3, Hp2 in Hlt. lia.
       * destruct Hs as (Hseg & Herr). exists SEnd. rewrite Hrest, app_nil_r. split; [exact Hseg|exact Herr].
-    + (* k more bytes *)
-      destruct Hcase as (k & Hk & Hp4 & Hr' & He4 & HG4 & Hsch).
+    + destruct Hcase as (k & Hk & Hp4 & Hr' & HG4 & Hmu' & Hcase).
       assert (Happ : pend s4 ++ rest r' = pend s1 ++ rest r).
       { rewrite Hp4, Hr', Hp3, Hp2, <- app_assoc, firstn_skipn. reflexivity. }
-      assert (Hmu' : mu r' + 1 <= mu r).
-      { unfold mu. rewrite Hr', Hsch, skipn_length. destruct (sched r); cbn [tl length]; lia. }
-      specialize (IH s4 r' HG4 ltac:(rewrite He4, He3, He2; exact He) Hewd4
-                    ltac:(rewrite Hsch; apply sched_pos_tl; exact Hpos) ltac:(lia)).
-      destruct (scan f s4 r') as [[|] s' r''|]; cbn [scan_post] in *; [| |exact IH].
-      * destruct IH as (t & ts & z & Ht & Hseg & Hseg' & HG' & Hfin & Hewd' & Hpos' & Hmu'' & Hlen & Hst).
-        exists t, ts, z. rewrite <- Happ. ssplit; try assumption; try congruence; try lia.
-        assert (HH : length (pend s4 ++ rest r') = length (pend s1 ++ rest r)) by (rewrite Happ; reflexivity).
-        rewrite !app_length in HH. lia.
-      * destruct IH as (z & Hseg & Herr). exists z. rewrite <- Happ, <- Hf4. split; assumption.
+      destruct Hcase as [(He4 & Hne)|(Hewd & Hkall & He4)].
+      * (* k more bytes, no error *)
+        assert (Hpre : scan_pre s4 r' f).
+        { unfold scan_pre, conv_ok. rewrite Happ, Hewd4, He4, Hse. ssplit; try assumption; try reflexivity. lia. }
+        specialize (IH s4 r' Hpre).
+        destruct (scan f s4 r') as [[|] s' r''|]; cbn [scan_post] in *; [| |exact IH].
+        -- destruct IH as (t & ts & z & Ht & Hseg & Hseg' & HG' & Hfin & Hewd' & Hok' & Hmu'' & Hlen & Hst).
+           exists t, ts, z. rewrite <- Happ. ssplit; try assumption; try congruence; try lia.
+           ++ assert (HH : length (pend s4 ++ rest r') = length (pend s1 ++ rest r)) by (rewrite Happ; reflexivity).
+              rewrite !app_length in HH. lia.
+        -- destruct IH as (z & Hseg & Herr). exists z. rewrite <- Happ, <- Hf4. split; assumption.
+      * (* the last k bytes arrive together with the error *)
+        rewrite Hse in He4. cbn [set_err] in He4.
+        assert (Hr'nil : rest r' = []) by (rewrite Hr', Hkall; apply skipn_all).
+        assert (Hp4' : pend s4 = pend s1 ++ rest r) by (rewrite <- Happ, Hr'nil, app_nil_r; reflexivity).
+        assert (Hdr : drain_ok s4).
+        { right. rewrite Hp4'. destruct Hconv as [Hc|Hc]; [congruence|exact Hc]. }
+        destruct f as [|f']; [unfold mu in *; lia|].
+        pose proof (scan_err_state f' s4 r' (final r) He4 HG4 Hdr) as Hs.
+        rewrite Hp4' in Hs.
+        destruct (scan (S f') s4 r') as [[|] s' r''|]; cbn [scan_post]; [| |exact Hs].
+        -- destruct Hs as (-> & t & ts & z & Ht & Hseg & Hseg' & Hes & Hlen & HGG).
+           exists t, ts, z. rewrite Hr'nil, !app_nil_r. ssplit; try assumption; try reflexivity; try lia.
+           ++ cbn [length]. rewrite app_length in Hlen. lia.
+           ++ right. ssplit; try assumption; try reflexivity.
+              right. rewrite Hseg'. cbn [snd].
+              destruct Hconv as [Hc|Hc]; [congruence|]. rewrite Hseg in Hc. exact Hc.
+        -- destruct Hs as (Hseg & Herr). exists SEnd. split; [exact Hseg|exact Herr].
   - (* ErrTooLong *)
     pose proof (grow_none _ HG2 Hst2 Eg) as Hfull. rewrite Hp2 in Hfull.
     exists STooLong. split.
@@ -112,14 +143,14 @@ Proof.
     + unfold sc_err, with_err. cbn [serr]. rewrite He2, He. reflexivity.
 Qed.
 
-Theorem scan_ok fuel : forall s r, G s -> serr s = None -> err_with_data r = false -> sched_pos (sched r) ->
-  mu r + 2 <= fuel -> scan_post s r (scan fuel s r).
+Theorem scan_ok fuel : forall s r, scan_pre s r fuel -> scan_post s r (scan fuel s r).
 Proof.
-  induction fuel as [|f IH]; intros s r HG He Hewd Hpos Hmu; [lia|].
+  induction fuel as [|f IH]; intros s r Hpre; [destruct Hpre as (_ & _ & _ & _ & Hmu); lia|].
+  pose proof Hpre as (HG & He & Hok & Hconv & Hmu).
   assert (Hh : has_err s = false) by (unfold has_err; rewrite He; reflexivity).
   cbn [scan]. destruct (pend s) as [|b bs] eqn:Ep.
   - rewrite (phase1_noerr_nil _ Hh Ep), Hh. cbn [negb].
-    pose proof (after_phase1 f IH s r HG He Hewd Hpos Hmu (or_introl Ep)) as H. exact H.
+    pose proof (after_phase1 f IH s r Hpre (or_introl Ep)) as H. exact H.
   - rewrite (phase1_noerr_cons _ Hh ltac:(rewrite Ep; discriminate)). rewrite Ep.
     destruct (scan_messages (b :: bs) false) as [a [t|]] eqn:E.
     + (* token from buffered data *)
@@ -131,7 +162,7 @@ Proof.
       * rewrite Ep. exact Hst.
       * destruct HG as [G1 G2]. unfold G, sc_end in *. cbn [buflen start pend]. rewrite Ep in G1.
         rewrite skipn_length. split; lia.
-      * rewrite Ep, skipn_length. lia.
+      * rewrite Ep, skipn_length. cbn [length] in *. lia.
       * left. exact He.
     + (* no token: advance and read more *)
       rewrite Hh.
@@ -142,17 +173,21 @@ Proof.
       assert (Hidem : pend s1 = [] \/ scan_messages (pend s1) false = (0, None)).
       { unfold s1. cbn [pend]. destruct (skipn a (b :: bs)) eqn:Esk; [left; reflexivity|right].
         rewrite <- Esk. apply split_idem; [exact E|rewrite Esk; discriminate]. }
-      pose proof (after_phase1 f IH s1 r HG1 He Hewd Hpos Hmu Hidem) as H.
       pose proof (no_tok_advance_stableT (b :: bs) (rest r) a ltac:(discriminate) E) as Hstab.
       assert (Hs1 : pend s1 = skipn a (b :: bs)) by reflexivity.
-      assert (Hlen1 : length (pend s1) <= length (pend s)) by (rewrite Hs1, Ep, skipn_length; lia).
-      rewrite <- Hs1 in Hstab. rewrite <- Ep in Hstab. clearbody s1.
+      assert (Hlen1 : length (pend s1) <= length (b :: bs)) by (rewrite Hs1, skipn_length; lia).
+      rewrite <- Hs1 in Hstab. rewrite <- Ep in Hstab.
+      assert (Hpre1 : scan_pre s1 r (S f)).
+      { unfold scan_pre, conv_ok. ssplit; try assumption.
+        destruct Hconv as [Hc|Hc]; [left; exact Hc|right]. rewrite <- Hstab. exact Hc. }
+      pose proof (after_phase1 f IH s1 r Hpre1 Hidem) as H.
+      clearbody s1.
       destruct (grow (shift s1)) as [s3|].
       * destruct (read_loop 100 s3 r) as [s4 r']. cbv iota beta in *.
         destruct (scan f s4 r') as [[|] s' r''|]; cbn [scan_post] in *; [| |exact H].
         -- destruct H as (t & ts & z & Ht & Hseg & Hrest). exists t, ts, z.
            rewrite Hstab. split; [exact Ht|]. split; [exact Hseg|].
-           destruct Hrest as (H1 & H2 & H3 & H4 & H5 & H6 & H7 & H8). ssplit; try assumption. lia.
+           destruct Hrest as (H1 & H2 & H3 & H4 & H5 & H6 & H7 & H8). ssplit; try assumption. rewrite Ep. lia.
         -- destruct H as (z & Hseg & Herr). exists z. rewrite Hstab. split; assumption.
       * cbn [scan_post] in *. destruct H as (z & Hseg & Herr). exists z. rewrite Hstab. split; assumption.
 Qed.
